@@ -908,6 +908,14 @@ class TextXVisitor(RRELVisitor):
                 elif repeat_op == "+":
                     rule = OneOrMore(nodes=[expr])
                 else:
+                    if not isinstance(expr, Sequence):
+                        line, col = self.grammar_parser.pos_to_linecol(node.position)
+                        raise TextXSyntaxError(
+                            'Operator "#" can be applied only to a bracketed '
+                            f"sequence or choice at {(line, col)}",
+                            line,
+                            col,
+                        )
                     rule = UnorderedGroup(nodes=expr.nodes)
 
                 if modifiers:
